@@ -74,6 +74,15 @@ def tokenize(name, body, table, skip):
                 break
         else:
             for text, tok in table:
+                if isinstance(text, re.Pattern):
+                    m = text.match(body, pos)
+                    if m:
+                        r = tok(m)
+                        if r is not None:
+                            out.append(r)
+                        pos = m.end()
+                        break
+                    continue
                 t = norm(text)
                 if body.startswith(t, pos):
                     if tok is not None:
@@ -125,6 +134,37 @@ TEE = """|data| {
         }
     }"""
 WARNMAP = '.map_err(|e| { warn!("Failed to save symbol file in local disk cache: {}", e); })'
+# Which URL goes where.  `url` is the URL that was requested; `res.url()` (or a local bound to `res.url().clone()`) is where
+# the response finally came from after reqwest followed redirects.  The URL the caller is told (`symbol_file.url = Some(..)`)
+# and the URL written into the INFO URL note (third argument of commit_cache_file) are TRANSLATED into `report_url_src` /
+# `note_url_src`; the theorems need them to be the same source (C16/Properties.v c16_stream_note_is_reported_url).
+final_locals = set()
+url_srcs = {}
+
+
+def url_expr(e, what):
+    if e == "url":
+        return "URequested"
+    if e == "res.url()" or e in final_locals:
+        return "UFinal"
+    die("fetch_symbol_file: %s uses `%s`, which is neither the requested URL (`url`) nor the response's final URL" % (what, e))
+
+
+def bind_final(m):
+    final_locals.add(m.group(1))
+    return None
+
+
+def set_url(m):
+    url_srcs["report"] = url_expr(m.group(1), "the URL reported to the caller")
+    return "FSetUrl"
+
+
+def commit_call(m):
+    url_srcs["note"] = url_expr(m.group(1), "the INFO URL note")
+    return "FCommitIfTemp"
+
+
 fetch_steps = tokenize("fetch_symbol_file", fetch_body, [
     ("let sym_lookup = breakpad_sym_lookup(module).ok_or(SymbolError::MissingDebugFileOrId)?;", None),
     ("let mut url = join_rel(base_url, &sym_lookup.server_rel).map_err(|_| SymbolError::NotFound)?;", None),
@@ -135,11 +175,15 @@ fetch_steps = tokenize("fetch_symbol_file", fetch_body, [
     ("let mut temp = create_cache_file(tmp, &final_cache_path)" + WARNMAP + ".ok();", "FCreate"),
     ("let mut ends_with_newline = true;", None),
     ("let mut symbol_file = SymbolFile::parse_async(res, " + TEE + ").await?;", "FParseTee"),
-    ("symbol_file.url = Some(url.to_string());", "FSetUrl"),
-    ("if let Some(temp) = temp { let _ = commit_cache_file(temp, &final_cache_path, &url, ends_with_newline)" + WARNMAP + "; }", "FCommitIfTemp"),
+    (re.compile(r"let([A-Za-z_][A-Za-z0-9_]*)=res\.url\(\)\.clone\(\);"), bind_final),
+    (re.compile(r"symbol_file\.url=Some\(([A-Za-z_][A-Za-z0-9_.()]*?)\.to_string\(\)\);"), set_url),
+    (re.compile(r"ifletSome\(temp\)=temp\{let_=commit_cache_file\(temp,&final_cache_path,&([A-Za-z_][A-Za-z0-9_.()]*?),ends_with_newline\)"
+                + re.escape(norm(WARNMAP)) + r";\}"), commit_call),
     ("Ok(symbol_file)", "FReturnOk"),
 ], LOG)
 
+if set(url_srcs) != {"report", "note"}:
+    die("fetch_symbol_file: URL report / note statements not found: %s" % sorted(url_srcs))
 # the two helpers are used by the symbol path exactly once each (fetch_lookup / unpack_cabinet_file have their own
 # create_cache_file calls and persist directly; they are judged by the oracle only)
 main = src.split("#[cfg(test)]")[0]
@@ -159,7 +203,11 @@ Definition commit_ops : list fsop := [%s].
 Inductive fstep := FSend | FCreate | FParseTee | FSetUrl | FCommitIfTemp | FReturnOk.
 (* fn fetch_symbol_file *)
 Definition fetch_steps : list fstep := [%s].
-""" % ("; ".join(create_ops), "; ".join(commit_ops), "; ".join(fetch_steps))
+(* `symbol_file.url = Some(<this>.to_string())`: the URL the caller is told *)
+Definition report_url_src : RM.C16.Model.urlsrc := RM.C16.Model.%s.
+(* third argument of commit_cache_file: the URL of the INFO URL note *)
+Definition note_url_src : RM.C16.Model.urlsrc := RM.C16.Model.%s.
+""" % ("; ".join(create_ops), "; ".join(commit_ops), "; ".join(fetch_steps), url_srcs["report"], url_srcs["note"])
 
 os.makedirs(outdir, exist_ok=True)
 path = os.path.join(outdir, "C16Ops.v")
